@@ -192,6 +192,22 @@ def require_actions(res, names, what=""):
                         % (what or res.cmd, missing, res.log))
 
 
+def tamper_trace(ctx, trace, name, pick, change):
+    """Binding self-test support: copy `trace` with the first line for which pick(record) holds changed by
+    change(record) (None = drop the line).  Returns the new path, or None when no line qualifies."""
+    lines = open(trace).read().splitlines()
+    for i, ln in enumerate(lines):
+        d = json.loads(ln)
+        if pick(d):
+            nd = change(d)
+            out = lines[:i] + ([json.dumps(nd)] if nd is not None else []) + lines[i + 1:]
+            path = ctx.path(name)
+            with open(path, "w") as f:
+                f.write("\n".join(out) + "\n")
+            return path
+    return None
+
+
 def sany(module):
     p = subprocess.run(["java", "-cp", TLA_CP, "tla2sany.SANY", module + ".tla"], cwd=SPEC,
                        stdout=subprocess.PIPE, stderr=subprocess.STDOUT, text=True)
